@@ -11,7 +11,9 @@
 From Coq Require Import List ZArith NArith Bool.
 From Tele Require Import Gen.Consts Gen.GoFns Model.CounterConc Proofs.CounterWord Proofs.CounterInv Proofs.CounterThms Proofs.GoFnsCounter.
 From Tele Require Import Model.Register Proofs.RegisterFacts Proofs.CounterFault Proofs.CounterProgress Proofs.CounterMono.
-From Tele Require Import Model.CounterMulti Proofs.CounterMultiFacts Proofs.CounterMultiCtl.
+From Tele Require Import Model.CounterMulti Proofs.CounterMultiFacts.
+From Tele Require Proofs.CounterMultiCtl2.
+From Tele Require Import Proofs.CounterMultiCtl.
 Import ListNotations.
 Open Scope Z_scope.
 
@@ -454,6 +456,29 @@ Theorem C03_multi_no_nil_deref_partial : forall ms0 ts0 sched k, mgood ms0 ts0 -
   (k < length (ms_ctrs ms0))%nat -> Forall (fun u => crashed u = false) (tsproj k ts).
 Proof. exact multi_no_nil_deref_nogrow. Qed.
 Print Assumptions C03_multi_no_nil_deref_partial.
+
+(* PARTIAL 2 (Proofs/CounterMultiCtl2.v): full files and rotations that open a
+   full file (changerM FullFile) admitted (`ctl_init`), and the statement holds
+   of every run UP TO ITS FIRST INLINE EXTENSION: as long as no thread's lookup
+   has extended the file (`has_grown ... = false`; m_grown is set by the
+   extension step and never reset) the control invariant holds and no flag is
+   set.  Missing for the full statement: the second walk level - the nested
+   walk over m_nest after an extension, the own thread at the G program points,
+   the couplings at the growth step and at the nested close - so for runs beyond
+   the first extension ms_chk = false is still a hypothesis of the general
+   theorems, tested by the lock-step. *)
+Theorem C03_multi_flags_clear_partial2 : forall ms0 ts0 sched, mgood ms0 ts0 -> CounterMultiCtl2.ctl_init ms0 ts0 ->
+  CounterMultiCtl2.has_grown (snd (mrun sched (ms0, ts0))) = false ->
+  ms_chk (fst (mrun sched (ms0, ts0))) = false /\ ms_bad (fst (mrun sched (ms0, ts0))) = false.
+Proof. exact CounterMultiCtl2.multi_flags_clear_upto. Qed.
+Print Assumptions C03_multi_flags_clear_partial2.
+
+Theorem C03_multi_invariant_partial2 : forall ms0 ts0 sched k, mgood ms0 ts0 -> reg_init ms0 -> CounterMultiCtl2.ctl_init ms0 ts0 ->
+  CounterMultiCtl2.has_grown (snd (mrun sched (ms0, ts0))) = false -> (k < length (ms_ctrs ms0))%nat ->
+  Inv (total_k k ms0 ts0) (sproj k (mrun sched (ms0, ts0))) /\
+  Forall (fun t => done_ok t = true) (snd (mrun sched (ms0, ts0))).
+Proof. exact CounterMultiCtl2.multi_inv_upto. Qed.
+Print Assumptions C03_multi_invariant_partial2.
 
 From Coq Require Import Arith Lia.
 (* Non-vacuity: the hypotheses hold of the initial state of the registration-race
